@@ -214,6 +214,17 @@ func (c *Ctx) coversSites(fn *ssa.Function, isStored, isCurrent, isEntry func(ss
 					}
 					hc := func(v ssa.Value) bool { return paramBoundTo(h, cl, v, isCurrent) }
 					hi := c.coversSites(h, hs, hc, he, depth+1)
+					if len(hi.sites) == 0 && len(hi.problems) == 0 {
+						// the helper may walk the stored context with IntMap.Each and a flag-setting callback
+						if acceptOn, ok, why := c.coversByEach(h, hs, hc); ok {
+							if why != "" {
+								problem(cl, "the helper "+c.name(h)+" deciding the reuse condition: "+why)
+							} else {
+								info.sites = append(info.sites, cmpSite{at: b, cond: cond, violTruth: !acceptOn, pos: cl})
+							}
+							continue
+						}
+					}
 					if len(hi.sites) > 0 || len(hi.problems) > 0 {
 						if len(hi.problems) > 0 {
 							problem(hi.probAt, hi.problems[0])
@@ -544,4 +555,131 @@ func loopHeaderOf(b *ssa.BasicBlock) *ssa.BasicBlock {
 		}
 	}
 	return h
+}
+
+// coversByEach recognises the reuse test written with the map's own iterator:
+//
+//	ok := true; stored.Each(func(key, count int) { if count > current.Get(key) { ok = false } }); return ok
+//
+// IntMap.Each visits every entry, the callback compares the entry's value with the current counter under the same key
+// and can only move the flag away from its initial value. Returns the value meaning "reusable".
+func (c *Ctx) coversByEach(h *ssa.Function, isStored, isCurrent func(ssa.Value) bool) (acceptOn bool, recognised bool, why string) {
+	for _, call := range ssax.Calls(h) {
+		ec, ok := isStaticMethod(callValue(call), "data", "IntMap", "Each")
+		if !ok || len(ec.Call.Args) != 2 || !isStored(ec.Call.Args[0]) {
+			continue
+		}
+		mc, ok := ec.Call.Args[1].(*ssa.MakeClosure)
+		if !ok {
+			continue
+		}
+		g := mc.Fn.(*ssa.Function)
+		if len(g.Params) != 2 {
+			continue
+		}
+		recognised = true
+		key, count := ssa.Value(g.Params[0]), ssa.Value(g.Params[1])
+		// the flag: the single captured bool the callback stores a constant into
+		var flagFV *ssa.FreeVar
+		var stored *ssa.Const
+		var storeBlock *ssa.BasicBlock
+		for _, b := range g.Blocks {
+			for _, in := range b.Instrs {
+				switch x := in.(type) {
+				case *ssa.Store:
+					fv, isFV := x.Addr.(*ssa.FreeVar)
+					k, isC := x.Val.(*ssa.Const)
+					if !isFV || !isC || flagFV != nil {
+						return false, true, "the callback writes more than one constant flag"
+					}
+					flagFV, stored, storeBlock = fv, k, b
+				case *ssa.MapUpdate, *ssa.Go, *ssa.Defer, *ssa.Send, *ssa.Panic:
+					return false, true, "the callback has other effects"
+				}
+			}
+		}
+		if flagFV == nil {
+			return false, true, "the callback records nothing"
+		}
+		setTo, isB := ssax.ConstBool(stored)
+		if !isB {
+			return false, true, "the flag is not a bool"
+		}
+		// governed by exactly: stored value > current.Get(key)
+		conds := ssax.DominatingConds(storeBlock)
+		if len(conds) != 1 {
+			return false, true, "the flag is set under more than one condition"
+		}
+		op, x, y, isCmp := ssax.CmpOp(conds[0].Val)
+		if !isCmp {
+			return false, true, "the flag is not set under a comparison of counters"
+		}
+		if !conds[0].Truth {
+			op = ssax.Negate(op)
+		}
+		isCur := func(v ssa.Value) bool {
+			gc, ok := isStaticMethod(v, "data", "IntMap", "Get")
+			if !ok || gc.Call.Args[1] != key {
+				return false
+			}
+			// the current context as the callback sees it: a captured variable bound to the helper's value
+			if u, ok := gc.Call.Args[0].(*ssa.UnOp); ok {
+				if fv, ok := u.X.(*ssa.FreeVar); ok {
+					for i, f := range g.FreeVars {
+						if f == fv && i < len(mc.Bindings) {
+							if al, ok := mc.Bindings[i].(*ssa.Alloc); ok && al.Referrers() != nil {
+								for _, r := range *al.Referrers() {
+									if st, ok := r.(*ssa.Store); ok && st.Addr == ssa.Value(al) && isCurrent(st.Val) {
+										return true
+									}
+								}
+							}
+						}
+					}
+				}
+			}
+			return false
+		}
+		switch {
+		case x == count && isCur(y):
+		case y == count && isCur(x):
+			op = ssax.Swap(op)
+		default:
+			return false, true, "the callback does not compare the stored counter with the current one under the same key"
+		}
+		if op != token.GTR && op != token.GEQ {
+			return false, true, "the flag is set when the stored counter is " + op.String() + " the current one; it must be set when it exceeds it"
+		}
+		// the helper: flag initialised with the opposite constant, returned after Each
+		var flagAlloc *ssa.Alloc
+		for i, f := range g.FreeVars {
+			if f == flagFV && i < len(mc.Bindings) {
+				flagAlloc, _ = mc.Bindings[i].(*ssa.Alloc)
+			}
+		}
+		if flagAlloc == nil || flagAlloc.Referrers() == nil {
+			return false, true, "the flag is not a local of the helper"
+		}
+		initOK := false
+		for _, r := range *flagAlloc.Referrers() {
+			if st, ok := r.(*ssa.Store); ok && st.Addr == ssa.Value(flagAlloc) {
+				if k, isB := ssax.ConstBool(st.Val); isB && k == !setTo && st.Block().Dominates(ec.Block()) {
+					initOK = true
+				} else {
+					return false, true, "the flag is written elsewhere in the helper"
+				}
+			}
+		}
+		if !initOK {
+			return false, true, "the flag is not initialised before the iteration"
+		}
+		for _, r := range ssax.Returns(h) {
+			u, ok := r.Results[0].(*ssa.UnOp)
+			if !ok || u.X != ssa.Value(flagAlloc) || !(ec.Block() == r.Block() || ec.Block().Dominates(r.Block())) {
+				return false, true, "the helper does not return the flag after the iteration"
+			}
+		}
+		return !setTo, true, ""
+	}
+	return false, false, ""
 }
